@@ -45,7 +45,11 @@ class RmsNormFusion(pattern.RewriteRuleClassBase):
         normalized = op.Mul(x, reciprocal_rms)
         normalized = pattern.OrValue([op.Cast(normalized, to=target_dtype), normalized])
         # To support float16, we need to ensure the scale is casted or not.
-        scale = pattern.OrValue([op.Cast(scale, to=compute_dtype), scale])
+        scale = pattern.OrValue(
+            [op.Cast(scale, to=compute_dtype), scale],
+            tag_var="scale_cast",
+            tag_values=[True, False],
+        )
         # Workaround: can't use OrValue for final (returned) value
         if self._mul_order:
             return op.Mul(normalized, scale)
@@ -73,7 +77,11 @@ class RmsNormFusion(pattern.RewriteRuleClassBase):
         # TODO (rama): Consider adding checks to protect against incorrectly typed models:
         return check_result
 
-    def rewrite(self, op, x, scale, epsilon, **_):
+    def rewrite(self, op, x, scale, epsilon, compute_dtype=None, scale_cast=False, **_):
+        # The output type of SimplifiedLayerNormalization is the type of scale: if the pattern
+        # multiplied by Cast(scale), the fused op must see the casted scale as well.
+        if scale_cast and compute_dtype is not None:
+            scale = op.Cast(scale, to=compute_dtype.as_int())
         # Note: ORT's SimplifiedLayerNormalization was placed in onnx domain by mistake.
         # No need to use com.microsoft domain here; but this is a custom op in ORT.
         return op.SimplifiedLayerNormalization(
